@@ -91,6 +91,11 @@ def trace(src, k=5, kinds=('local_tick', 'peer_tick', 'peer_tick_restarted', 'rp
     has_running = pstate in ('CHECKED', 'RUNNING')
     if has_running:
         core.process_event(peer, 'app', 'p', ProcessStates.RUNNING)
+        # the local copy of the program may have reported something (a stopped-like state) after that: the loss of the
+        # peer is still the latest news about the process
+        if src.pick_flag('local_copy_reported_later'):
+            CLOCK[0].advance(1)
+            core.process_event(local, 'app', 'p', ProcessStates.EXITED, expected=True)
     rec.instances.clear()
     cur = pstate
     healthy = True          # ticks kept arriving, no restart, no XML-RPC failure since the peer became active
@@ -120,6 +125,8 @@ def trace(src, k=5, kinds=('local_tick', 'peer_tick', 'peer_tick_restarted', 'rp
                         src.check('its-processes-fatal-and-unlisted',
                                   peer not in proc.running_identifiers and proc.info_map[peer]['state']
                                   == ProcessStates.FATAL, sig=before)
+                        src.check('process-that-ran-only-there-is-reported-fatal', proc.state == ProcessStates.FATAL,
+                                  sig=before, state=proc.state)
                         has_running = False
                     healthy = True
                 elif healthy:
@@ -206,7 +213,7 @@ HARNESSES = [
     Harness('H07a', arithmetic, quick={}, thorough={}, reach=('done', 'stealth'), timeout=(30, 60),
             doc='is_inactive / SupvisorsTimes.update for every counter value and inactivity_ticks in [2,720]'),
     Harness('H07b', trace, quick={'k': 5}, thorough={'k': 7}, reach=('overdue', 'alive', 'done'),
-            timeout=(120, 1500),
+            timeout=(220, 1500),
             doc='k symbolic steps (local tick, peer tick, restarted peer tick, XML-RPC failure, handshake) with '
                 'symbolic inactivity_ticks and counters vs a tick-counting monitor'),
 ]
